@@ -163,7 +163,7 @@ func compareWithReference(r *fw.R, id string, ctxKey string, o *readOutcome, ref
 		r.Violate(id+"/clean-end-after-failed-read/"+termKey, fmt.Sprintf("%s: reading the message failed with %q, yet the same reader then reported its clean end: %s", ctxKey, o.Err, o.CleanAfterError), witness())
 	}
 	if o.TimedOut {
-		r.Violate(id+"/read-never-returned/"+termKey, fmt.Sprintf("%s: the read loop was still blocked 30 s after the whole stream and the transport EOF had been delivered", ctxKey), witness())
+		r.Violate(id+"/read-never-returned/"+termKey, fmt.Sprintf("%s: the read loop was still blocked when the case's context ended (30 s; 90 s in the cut runs of C04) although the whole stream and the transport EOF had been delivered", ctxKey), witness())
 		return
 	}
 	n := len(o.Msgs)
